@@ -167,8 +167,11 @@ def _levels_generator(names):
         def __call__(self, rng_key):
             key, idx_key = jax.random.split(rng_key)
             idx = jax.random.randint(idx_key, (), 0, fixed.shape[0])
-            return State(key=key, fixed_grid=fixed[idx], variable_grid=var[idx], agent_location=locs[idx],
-                         step_count=jnp.array(0, jnp.int32))
+            from harness import inject
+            from jumanji.environments.routing.sokoban.generator import ToyGenerator
+
+            return inject.state_like(ToyGenerator()(key), key=key, fixed_grid=fixed[idx], variable_grid=var[idx],
+                                     agent_location=locs[idx], step_count=jnp.array(0, jnp.int32))
 
     return LevelsGenerator()
 
